@@ -98,10 +98,24 @@ def mutation() -> str:
     return '\n'.join(out)
 
 
+def thorough() -> str:
+    d = os.path.join(VERIF, 'evidence', 'thorough')
+    out = ['| property | simulated runs | wall s | runs/hour | distinct non-trivial runs | distinct states (measure in the evidence file) | faults / schedule events fired | new violations | known findings hit |', '|---|---|---|---|---|---|---|---|---|']
+    if not os.path.isdir(d):
+        return '(no thorough-tier evidence copied yet)'
+    for fn in sorted(os.listdir(d)):
+        e = json.load(open(os.path.join(d, fn)))
+        c = e['coverage']
+        probes = c.get('probes', {})
+        fired = sum(v for k, v in probes.items() if k.startswith('fired_') or k in ('fault_plans_executed', 'interleavings_executed', 'finalizers_by_drop', 'collect_steps', 'reparse_phases', 'saves_after_failed_parse'))
+        out.append(f"| {e['property_id']} | {c['evaluations']} | {round(e['wall_s'])} | {c.get('runs_per_hour', '')} | {c['distinct_nontrivial']} | {c['distinct_states']} | {fired or '–'} | {e.get('violations', 0) if isinstance(e.get('violations', 0), int) else len(e.get('violations'))} | {sum(c.get('known_findings_seen', {}).values())} |")
+    return '\n'.join(out)
+
+
 def main():
     p = os.path.join(VERIF, 'DESIGN.md')
     s = open(p).read()
-    for name, fn in (('findings', findings), ('seeded', seeded), ('mutants', mutants), ('mutation', mutation)):
+    for name, fn in (('findings', findings), ('seeded', seeded), ('mutants', mutants), ('mutation', mutation), ('thorough', thorough)):
         pat = re.compile(rf'(<!-- AUTO:{name} -->\n).*?(<!-- /AUTO:{name} -->)', re.S)
         if not pat.search(s):
             print('marker missing:', name)
